@@ -1,10 +1,10 @@
 package conc
 
 import (
-	"strings"
 	"errors"
 	"fmt"
 	"runtime"
+	"strings"
 	"sync"
 	"time"
 
@@ -411,7 +411,24 @@ func runC13Sequential(c *eng.Ctx, next func() (int, bool)) {
 			continue
 		}
 		c.R.Begin(idx)
-		r := core.NewRun(s, m, nil, nil)
+		// every fourth history: the Close methods of the instances fail, so that the Close calls
+		// below return disposal errors - closed still means closed, and a second Close returns
+		var cfs []rt.CloseFault
+		failing := k%4 == 1
+		if failing {
+			for _, reg := range s.Regs {
+				if reg.Ctor < 0 || reg.Remove {
+					continue
+				}
+				for nth := 1; nth <= 6; nth++ {
+					for out := 0; out < len(pool.Ctors[reg.Ctor].Outs); out++ {
+						cfs = append(cfs, rt.CloseFault{Ctor: reg.Ctor, Nth: nth, Out: out})
+					}
+				}
+			}
+			c.R.Count("sequential_histories_with_failing_close_methods", 1)
+		}
+		r := core.NewRun(s, m, nil, cfs)
 		r.Build()
 		var fs []core.Finding
 		if r.Built {
@@ -432,6 +449,11 @@ func runC13Sequential(c *eng.Ctx, next func() (int, bool)) {
 					}
 				} else {
 					res = r.Do(core.Op{Kind: core.OpClose, Scope: sc})
+					if failing {
+						if again := r.Do(core.Op{Kind: core.OpClose, Scope: sc}); again.Class != "ok" {
+							fs = append(fs, core.Finding{Clause: "second-close-not-nil", Sig: again.Class, Detail: fmt.Sprintf("the second Close of s%d (whose first Close returned %s) returned %s: %v", sc, res.Class, again.Class, core.TrimErr(again.Err))})
+						}
+					}
 				}
 				for d := 1; d < nScopes; d++ {
 					for a := d; a > 0; a = r.Scopes[a].Parent {
@@ -681,7 +703,6 @@ func runC10Overlap(c *eng.Ctx, next func() (int, bool)) {
 		}
 	}
 }
-
 
 // countYields runs the scenario's op (or its closer) alone and counts the internal yield
 // points it passes (Close points only for the closer, whichever goroutine executes them).
